@@ -163,8 +163,8 @@ def main():
     ap = argparse.ArgumentParser()
     ap.add_argument('--n', type=int, default=60)
     ap.add_argument('--seed', type=int, default=1)
-    ap.add_argument('--workers', type=int, default=4)
-    ap.add_argument('--jobs', type=int, default=4)
+    ap.add_argument('--workers', type=int, default=12)
+    ap.add_argument('--jobs', type=int, default=1)
     ap.add_argument('--files', default=','.join(FILES))
     ap.add_argument('--out', default=os.path.join(VERIF, 'selftest', 'mutation_campaign.json'))
     a = ap.parse_args()
